@@ -1,3 +1,5 @@
+//go:build fam_yoda || fam_all
+
 package main
 
 import (
